@@ -1016,7 +1016,11 @@ func c04() int {
 							rep.Undecide("interpreter: " + errText)
 							continue
 						}
-						rep.Violation("insert-error:"+op.Name, "InsertLogs failed: "+errText, replay)
+						if interpreterLimit(errText) {
+							rep.Undecide("the interpreter cannot execute the schema / a statement: " + errText)
+						} else {
+							rep.Violation("insert-error:"+op.Name, "InsertLogs failed: "+errText, replay)
+						}
 						continue
 					}
 					atomic.AddInt64(&states, 1)
@@ -1092,6 +1096,12 @@ func c04() int {
 		"filtered_reads":                nFilterReads,
 	}
 	rep.Assume = []string{"pgmini's reading of PostgreSQL semantics (SPEC.md in /verif/xverif/lib/pgmini; no PostgreSQL server exists in the sandbox to validate it against)", "account volumes / effective volumes and aggregated balances are executed with and without a point in time (by insertion date resp. effective date); the point-in-time variants of the transaction listings and the volumes of listed accounts are not compared (only their ledger predicate is checked)"}
+	// the engine on the real store, history by history, against the stand-in (realstore.go): what the engine writes - also
+	// the dates it gives its entries, which every point-in-time read relies on - is what the log replay assumes
+	if os.Getenv("VERIF_C04_PART") == "" {
+		rsH, rsS := realStoreConformance(rep, "")
+		cov["realstore_histories"], cov["realstore_steps"] = rsH, rsS
+	}
 	return rep.Finish(cov)
 }
 
@@ -1122,4 +1132,10 @@ func pitOrMax(t *ledger.Time) time.Time {
 		return time.Date(9999, 1, 1, 0, 0, 0, 0, time.UTC)
 	}
 	return t.Time
+}
+
+// interpreterLimit: an error that says the interpreter does not know a construct (PostgreSQL's grammar is larger than its own),
+// not that the statement is wrong: such a tree is undecided, not in violation
+func interpreterLimit(errText string) bool {
+	return strings.Contains(errText, "pgmini:") || strings.Contains(errText, "syntax error")
 }
